@@ -214,9 +214,13 @@ Inductive tok := KUnq (s : str) | KStr (s : str) | KPunct (c : rune) | KEnd.
 Inductive tres := TOk (t : tok) (rest : str) | TReject | TAmbiguous.
 
 (* the column of the first rune of the suffix [s] of [text]: tab-expanded width of what precedes it on
-   its line *)
-Definition column_of (text s : str) : Z :=
-  tabw_rev (cur_line_rev (rev (firstn (length text - length s) text))).
+   its line (a line break resets, a tab goes to the next multiple of 8, anything else is one column) *)
+Fixpoint col_from (col : Z) (s : str) : Z :=
+  match s with
+  | [] => col
+  | c :: r => col_from (if (c =? cLF)%N then 0 else if (c =? cTAB)%N then tab_stop col else col + 1) r
+  end.
+Definition column_of (text s : str) : Z := col_from 0 (firstn (length text - length s) text).
 
 (* the token [s] starts with, after blanks and comments *)
 Definition read_token (text : str) (pat : bool) (s : str) : tres :=
